@@ -64,6 +64,7 @@ class Unit:
     add_library: bool = True          # link CBMC's libc models (memset/memcpy/...) before DFCC
     pregen: Optional[str] = None      # name of a per-run header generator in vlib/pregen.py
     probes: Optional[List[str]] = None  # if set: exactly these [VACUITY] probes (substring match) must be reachable
+    replace_calls: List[Tuple[str, str]] = field(default_factory=list)  # goto-instrument --replace-calls f:g
 
 
 @dataclass
@@ -194,6 +195,17 @@ def build_and_check(u: Unit, workdir: str, trace: bool = False, only_props: Opti
         r.reason = "goto-cc failed (rc=%d): %s" % (rc, (out + err)[-2000:])
         r.wall_s = time.time() - t0
         return r
+    if u.replace_calls:
+        arc = os.path.join(workdir, "arc.gb")
+        cmd = ["goto-instrument"] + sum([["--replace-calls", "%s:%s" % fg] for fg in u.replace_calls], []) + [a, arc]
+        r.cmds.append(" ".join(cmd))
+        rc, out, err, _ = sh(cmd, 600, 8)
+        r.log += out + err
+        if rc != 0:
+            r.reason = "replace-calls failed: " + (out + err)[-1500:]
+            r.wall_s = time.time() - t0
+            return r
+        a = arc
     if u.remove_bodies:
         a2 = os.path.join(workdir, "a2.gb")
         cmd = ["goto-instrument"] + sum([["--remove-function-body", f] for f in u.remove_bodies], []) + [a, a2]
